@@ -147,6 +147,67 @@ def gen_filter(rng):
 COMPRESS = {".xz": lzma.compress, ".gz": gzip.compress, ".bz2": bz2.compress, "": lambda b: b}
 
 
+def check_multi(chk, sseed):
+    """one parser instance over several index files (two or three architectures / components), read in the order the parser's
+    own set gives: nothing of one index - an unterminated last stanza, a Source field, a section flag - may reach the next"""
+    rng = random.Random(sseed)
+    kind = rng.choice(["packages", "packages", "sources"])
+    n = rng.randint(2, 3)
+    flt = gen_filter(rng)
+    ignored = rng.sample(["pool/main/p", "pool/main/s/srcA", "pool/mai"], rng.randint(0, 1))
+    top = fsutil.workdir("idxm")
+    rels, texts = [], {}
+    for i in range(n):
+        stanzas = gen_packages(rng) if kind == "packages" else gen_sources(rng)
+        # distinct file names per index, so that the union is order independent
+        text = render(rng, stanzas).replace("_amd64.deb", f"_a{i}.deb").replace(".dsc", f".{i}.dsc").replace(".orig.tar.gz", f".{i}.orig.tar.gz").replace(".debian.tar.xz", f".{i}.debian.tar.xz")
+        rel = Path(f"dists/s/main/binary-a{i}/Packages") if kind == "packages" else Path(f"dists/s/c{i}/source/Sources")
+        ext = rng.choice([".xz", ".gz", ""])
+        (Path(top) / rel.parent).mkdir(parents=True)
+        with open(str(Path(top) / rel) + ext, "wb") as fp:
+            fp.write(COMPRESS[ext](text.encode()))
+        rels.append(rel)
+        texts[rel] = text
+    pf = PackageFilter()
+    pf.include_source_name.update(flt["include_source_name"])
+    pf.exclude_source_name.update(flt["exclude_source_name"])
+    pf.include_binary_packages.update(flt["include_binary_packages"])
+    pf.exclude_binary_packages.update(flt["exclude_binary_packages"])
+    index_set = set(rels)
+    order = list(index_set)          # the iteration order of this very set object is the order parse() will use
+    cls = PackagesParser if kind == "packages" else SourcesParser
+    replay = {"multi": True, "kind": kind, "texts": [texts[r][:1500] for r in order], "filter": flt, "ignored": ignored, "seed": sseed}
+    try:
+        files = cls(Path(top), index_set, set(ignored), pf).parse()
+        real = sorted((parts(f.path), f.size, bool(f.ignore_errors)) for f in files)
+        real_err = None
+    except Exception as ex:
+        real, real_err = None, type(ex).__name__
+    m = driver().call("parse_index", kind=kind, texts=[texts[r] for r in order], filter=flt, ignored=[parts(i) for i in ignored])
+    fsutil.rmtree(top)
+    if real_err or "error" in m:
+        if real_err != m.get("error"):
+            chk.violation("correspondence-parse-error", dict(replay, disagreement={"real": real_err, "model": m.get("error")},
+                          correspondence="Model/Index.lean vs parser exceptions"), f"real {real_err} model {m.get('error')}", no_input=True)
+        chk.evaluated(None)
+        return
+    spec = {}
+    for r in order:
+        spec.update(fsckmod.pool_of_packages(texts[r], flt) if kind == "packages" else fsckmod.pool_of_sources(texts[r], flt))
+    spec_l = sorted((p.split("/"), sz, fsckmod.ignored(ignored, p)) for p, sz in spec.items())
+    real_l = [(p, sz, ig) for p, sz, ig in real]
+    if real_l != spec_l:
+        wrong = [x for x in real_l if x not in spec_l][:2]
+        missing = [x for x in spec_l if x not in real_l][:2]
+        chk.violation("pool-set-differs:several-indices:" + kind, replay, f"several indices read by one parser: wrong={wrong} missing={missing}")
+    elif real_l != [(p, sz, ig) for p, sz, ig in sorted((p, sz, ig) for p, sz, ig in m["pool"])]:
+        chk.violation("correspondence-parse", dict(replay, disagreement={"real": real_l[:3], "model": m["pool"][:3]},
+                      correspondence="Model/Index.lean machines over several indices vs parse()"), "model differs", no_input=True)
+    chk.evaluated(("multi", kind, n, tuple(t[-40:] for t in texts.values())), sample={"kind": kind, "indices": n, "derived": len(real_l)})
+    chk.count(f"parser_runs_over_several_indices:{kind}")
+    chk.traces += 1
+
+
 def check_one(chk, sseed, big=False):
     rng = random.Random(sseed)
     kind = rng.choice(["packages", "packages", "sources"])
@@ -227,6 +288,8 @@ def check_one(chk, sseed, big=False):
 
 def run(chk, tier, rng):
     n = 400 if tier == "quick" else 20000
+    for i in range(60 if tier == "quick" else 2000):
+        check_multi(chk, f"C09m-{chk.seed}-{i}")
     for i in range(n):
         check_one(chk, f"C09-{chk.seed}-{i}", big=(i % 4 == 3))   # every fourth index is above the mmap threshold
     chk.assumptions += ["canonical field capitalisation and LF line ends (property quantifier)", "decompression, mmap and readline are exercised, not modelled"]
@@ -236,7 +299,10 @@ def replay(rep):
     from core.check import Check
     chk = Check("C09", "quick", 0)
     chk.known = []
-    check_one(chk, rep["replay"]["seed"])
+    if rep["replay"].get("multi"):
+        check_multi(chk, rep["replay"]["seed"])
+    else:
+        check_one(chk, rep["replay"]["seed"])
     for sig, path, msg, _ in chk.violations:
         print(f"REPLAY VIOLATION {sig}: {msg}")
     return 1 if chk.violations else 0
